@@ -283,6 +283,18 @@ func runJobOnce(sc *scratch, cfg *propCfg, j job) []*runResult {
 		// the process died or hung before reporting the run that was in progress
 		r := &runResult{Prop: j.prop, Run: j.run + len(results), Seed: j.seed, stderr: se}
 		switch {
+		case strings.Contains(se, "VERIF-HANG class="):
+			// the worker's own guard: a case that did not return in time
+			line := se[strings.Index(se, "VERIF-HANG class=")+len("VERIF-HANG class="):]
+			if i := strings.Index(line, "\n"); i >= 0 {
+				line = line[:i]
+			}
+			r.Verdict = "crash"
+			if i := strings.Index(line, " detail="); i >= 0 {
+				r.Class, r.Detail = line[:i], line[i+8:]
+			} else {
+				r.Class = line
+			}
 		case watchdog:
 			r.Verdict = "watchdog"
 			r.Detail = "no result within " + to.String() + "\n" + tail(se, 4000)
@@ -297,7 +309,7 @@ func runJobOnce(sc *scratch, cfg *propCfg, j job) []*runResult {
 						r.Params[kv[0]] = kv[1]
 					}
 				}
-				for _, k := range []string{"mode", "poison", "kind"} {
+				for _, k := range crashKeys(j.prop) {
 					if v, ok := r.Params[k]; ok {
 						r.Class += ":" + fmt.Sprint(v)
 					}
@@ -324,6 +336,17 @@ func tail(s string, n int) string {
 		return s[len(s)-n:]
 	}
 	return s
+}
+
+// crashKeys: which run parameters are part of a process-death class.
+func crashKeys(prop string) []string {
+	if prop == "C04" {
+		return []string{"target"}
+	}
+	if prop == "C05" || prop == "C14" {
+		return nil // keyed by crash site alone
+	}
+	return []string{"mode", "poison", "kind"}
 }
 
 var frameRe = regexp.MustCompile(`(?m)^(github\.com/hprose/hprose-golang/v3/[^\s(]+(?:\([^)]*\))?[^\s(]*)\(`)
@@ -596,7 +619,7 @@ func checkTier(cfg *propCfg, tier string, seed uint64) int {
 		fmt.Println(l)
 	}
 	fmt.Printf("[check] %s %s seed=%d: %d runs, %d distinct non-trivial, %d unlisted violation classes, %d known-finding runs, %.1fs (build %.1fs)\n",
-		cfg.ID, tier, seed, agg.runs, len(agg.hashes), unknown, sum(knownSeen), time.Since(t0).Seconds(), buildS)
+		cfg.ID, tier, seed, agg.runs, len(agg.hashes)+agg.extraInt["distinct_cases"], unknown, sum(knownSeen), time.Since(t0).Seconds(), buildS)
 	return exitCode
 }
 
